@@ -89,7 +89,7 @@ class C15(Harness):
         for tname, (kw, vals) in type_table().items():
             for vi, v in enumerate(vals):
                 for level in ('instance', 'class'):
-                    for mode in ('all', 'subset', 'value'):
+                    for mode in ('all', 'subset', 'value', 'desersubset', 'emptysubset'):
                         out.append({'t': tname, 'vi': vi, 'level': level, 'mode': mode})
         names = list(type_table())
         pairs = list(itertools.permutations(names, 2))
@@ -144,6 +144,33 @@ class C15(Harness):
             if not same(back, v):
                 vs.append(V('roundtrip-differs', '%s: serialize_value/deserialize_value turned %r into %r' % (tname, v, back), **key))
             return Result(vs, outcome='value', hits={'value': 1})
+        if mode == 'emptysubset':
+            # an empty selection selects nothing (and is not "no selection")
+            try:
+                text = target.param.serialize_parameters(subset=[])
+                if json.loads(text) != {}:
+                    vs.append(V('subset-leaks', 'serialize_parameters(subset=[]) produced %s' % text[:120], **key))
+                kw2 = X.param.deserialize_parameters(target.param.serialize_parameters(), subset=[])
+                if kw2 != {}:
+                    vs.append(V('subset-leaks', 'deserialize_parameters(..., subset=[]) produced %r' % (kw2,), **key))
+            except Exception as e:
+                vs.append(V('roundtrip-raises', 'empty subset raised %r' % (e,), exc=type(e).__name__, **key))
+            return Result(vs, outcome=mode, hits={mode: 1})
+        if mode == 'desersubset':
+            # the text holds every parameter, only one is selected when restoring
+            try:
+                text = target.param.serialize_parameters()
+                kw2 = X.param.deserialize_parameters(text, subset=['p'])
+                if set(kw2) != {'p'}:
+                    vs.append(V('subset-leaks', 'deserialize_parameters(full text, subset=[p]) returned keys %r' % (sorted(kw2),), **key))
+                y = X(**kw2)
+                if not same(y.p, v):
+                    vs.append(V('roundtrip-differs', '%s: p was %r, rebuilt object has %r' % (tname, v, y.p), **key))
+                if y.other != 3:
+                    vs.append(V('subset-leaks', 'unselected parameter was overridden: other=%r' % (y.other,), **key))
+            except Exception as e:
+                vs.append(V('roundtrip-raises', '%s: selective restore of %r raised %r' % (tname, v, e), exc=type(e).__name__, **key))
+            return Result(vs, outcome=mode, hits={mode: 1})
         subset = ['p'] if mode == 'subset' else None
         self.roundtrip(param, X, target, {'p': v, 'other': 3}, subset, vs, key)
         return Result(vs, outcome=mode, hits={mode: 1})
